@@ -25,7 +25,12 @@ pub fn convert(
     let mut rules: Vec<Box<dyn VarResolve>> = vec![];
     rules.push(Box::new(ExistingVar::default()));
     rules.push(Box::new(ExistingConst::new_local()));
-    if extra.element != ExprContext::Default {
+    // A function name as an argument is a call of that function
+    // (unless it is the result variable of the function being defined).
+    let is_call = extra.element == ExprContext::Default
+        || (extra.element == ExprContext::Argument
+            && !ctx.names.is_in_function(name.as_bare_name()));
+    if !is_call {
         rules.push(Box::new(AssignToFunction::default()));
     } else {
         rules.push(Box::new(VarAsBuiltInFunctionCall::default()));
